@@ -8,7 +8,9 @@
 use super::crashcase::{gen_transaction, gen_typed_data};
 use super::iogen::{self, benign_plan, with_hard_error};
 use super::newcase::{gen_password, gen_selector};
-use crate::exec::{exec, hexbytes, panic_fingerprint, Cmd, Ctx, HarnessError, IoStep, NamedFile, Outcome, Status};
+use crate::exec::{
+    exec, hexbytes, panic_fingerprint, Cmd, Ctx, HarnessError, IoStep, NamedFile, Outcome, Status,
+};
 use crate::framework::{Plan, RunReport};
 use crate::prng::{run_seed, Fnv, Rng};
 use crate::refmodel::{self as rm, PathComp};
@@ -22,8 +24,12 @@ pub enum Op {
     Export,
     PublicKey,
     SignMessage,
-    SignRaw { digest: String },
-    SignTx { signature_only: bool },
+    SignRaw {
+        digest: String,
+    },
+    SignTx {
+        signature_only: bool,
+    },
     SignTyped,
     HashData,
     HashMessage,
@@ -34,7 +40,10 @@ pub enum Op {
 
 impl Op {
     fn has_input(&self) -> bool {
-        !matches!(self, Op::Address | Op::Export | Op::PublicKey | Op::SignRaw { .. } | Op::Conflict)
+        !matches!(
+            self,
+            Op::Address | Op::Export | Op::PublicKey | Op::SignRaw { .. } | Op::Conflict
+        )
     }
     fn needs_account(&self) -> bool {
         !matches!(self, Op::HashData | Op::HashMessage | Op::HashTyped)
@@ -46,8 +55,12 @@ impl Op {
             Op::PublicKey => "public-key",
             Op::SignMessage => "sign message",
             Op::SignRaw { .. } => "sign raw",
-            Op::SignTx { signature_only: true } => "sign transaction --signature-only",
-            Op::SignTx { signature_only: false } => "sign transaction",
+            Op::SignTx {
+                signature_only: true,
+            } => "sign transaction --signature-only",
+            Op::SignTx {
+                signature_only: false,
+            } => "sign transaction",
             Op::SignTyped => "sign typeddata",
             Op::HashData => "hash data",
             Op::HashMessage => "hash message",
@@ -140,7 +153,13 @@ fn rlp_list_items(mut data: &[u8]) -> Option<Vec<Vec<u8>>> {
         let total = if !l && off == 0 { 1 } else { off + len };
         let item = data.get(..total)?;
         // payload of a string item, raw encoding of a nested list
-        items.push(if l { item.to_vec() } else if off == 0 { item.to_vec() } else { item[off..].to_vec() });
+        items.push(if l {
+            item.to_vec()
+        } else if off == 0 {
+            item.to_vec()
+        } else {
+            item[off..].to_vec()
+        });
         data = &data[total..];
     }
     Some(items)
@@ -163,7 +182,9 @@ impl AcctCase {
             Op::Export => vec!["export"],
             Op::PublicKey => vec!["public-key"],
             Op::Conflict => vec!["address"],
-            Op::SignMessage | Op::SignRaw { .. } | Op::SignTx { .. } | Op::SignTyped => vec!["sign"],
+            Op::SignMessage | Op::SignRaw { .. } | Op::SignTx { .. } | Op::SignTyped => {
+                vec!["sign"]
+            }
             Op::HashData | Op::HashMessage | Op::HashTyped => vec!["hash"],
         };
         cmd.argv.extend(words.iter().map(|s| s.to_string()));
@@ -182,8 +203,22 @@ impl AcctCase {
             opt(2, "--password", "PASSWORD", &self.password);
             if *op == Op::Conflict {
                 // the two selectors, one through each channel according to the mask bits 2 and 3
-                opt(4, "--account-index", "ACCOUNT_INDEX", &Some(self.account_index.clone().unwrap_or_else(|| "1".into())));
-                opt(8, "--hd-path", "HD_PATH", &Some(self.hd_path.clone().unwrap_or_else(|| "m/44'/60'/0'/0/1".into())));
+                opt(
+                    4,
+                    "--account-index",
+                    "ACCOUNT_INDEX",
+                    &Some(self.account_index.clone().unwrap_or_else(|| "1".into())),
+                );
+                opt(
+                    8,
+                    "--hd-path",
+                    "HD_PATH",
+                    &Some(
+                        self.hd_path
+                            .clone()
+                            .unwrap_or_else(|| "m/44'/60'/0'/0/1".into()),
+                    ),
+                );
             } else {
                 opt(4, "--account-index", "ACCOUNT_INDEX", &self.account_index);
                 opt(4, "--hd-path", "HD_PATH", &self.hd_path);
@@ -220,7 +255,10 @@ impl AcctCase {
                 cmd.stdin_pipe = true;
             } else {
                 cmd.argv.push("input.dat".into());
-                cmd.files.push(NamedFile { name: "input.dat".into(), data: self.input.clone() });
+                cmd.files.push(NamedFile {
+                    name: "input.dat".into(),
+                    data: self.input.clone(),
+                });
                 cmd.fplan = v.rplan.clone();
             }
         }
@@ -229,14 +267,27 @@ impl AcctCase {
     }
 
     /// The digest the matching `hash` sub-command prints for this case's input.
-    fn hash_digest(&self, ctx: &Ctx, dir: &Path, rep: &mut RunReport, eh: &mut Fnv, extra: &[&str]) -> Result<Option<[u8; 32]>, HarnessError> {
+    fn hash_digest(
+        &self,
+        ctx: &Ctx,
+        dir: &Path,
+        rep: &mut RunReport,
+        eh: &mut Fnv,
+        extra: &[&str],
+    ) -> Result<Option<[u8; 32]>, HarnessError> {
         let hop = match self.op {
             Op::SignMessage => Op::HashMessage,
             Op::SignTx { .. } => Op::HashData, // placeholder, replaced below
             Op::SignTyped | Op::HashTyped => Op::HashTyped,
             _ => return Ok(None),
         };
-        let base = Variant { env_mask: 0, stdin: false, rplan: vec![], wplan: vec![], pipe: false };
+        let base = Variant {
+            env_mask: 0,
+            stdin: false,
+            rplan: vec![],
+            wplan: vec![],
+            pipe: false,
+        };
         let mut cmd = self.build(&base, &hop);
         if matches!(self.op, Op::SignTx { .. }) {
             cmd.argv = vec!["hash".into(), "transaction".into(), "input.dat".into()];
@@ -255,7 +306,16 @@ impl AcctCase {
 
     pub fn run(&self, ctx: &Ctx, dir: &Path) -> Result<RunReport, HarnessError> {
         let mut rep = RunReport::default();
-        for p in ["input_through_pipe", "hard_error_fired", "env_variant_run", "stdin_plan_variant_run", "nonzero_account_index", "explicit_hd_path", "nonascii_password", "input_rejected_consistently"] {
+        for p in [
+            "input_through_pipe",
+            "hard_error_fired",
+            "env_variant_run",
+            "stdin_plan_variant_run",
+            "nonzero_account_index",
+            "explicit_hd_path",
+            "nonascii_password",
+            "input_rejected_consistently",
+        ] {
             rep.probe(p, false);
         }
         let mut eh = Fnv::new();
@@ -263,15 +323,33 @@ impl AcctCase {
         sh.write(serde_json::to_string(self).unwrap().as_bytes());
         rep.shape = sh.finish();
         rep.fault_free = !self.variants.iter().any(|v| iogen::has_hard(&v.rplan));
-        rep.probe("nonzero_account_index", self.account_index.as_deref().map(|i| i != "0").unwrap_or(false));
+        rep.probe(
+            "nonzero_account_index",
+            self.account_index
+                .as_deref()
+                .map(|i| i != "0")
+                .unwrap_or(false),
+        );
         rep.probe("explicit_hd_path", self.hd_path.is_some());
-        rep.probe("nonascii_password", self.password.as_deref().map(|p| !p.is_ascii()).unwrap_or(false));
+        rep.probe(
+            "nonascii_password",
+            self.password
+                .as_deref()
+                .map(|p| !p.is_ascii())
+                .unwrap_or(false),
+        );
         let opname = self.op.name();
         let mut hist: Vec<Value> = Vec::new();
 
-        let acct = rm::account(&self.phrase, self.password.as_deref().unwrap_or(""), &self.path);
+        let acct = rm::account(
+            &self.phrase,
+            self.password.as_deref().unwrap_or(""),
+            &self.path,
+        );
         let Some(acct) = acct else {
-            return Err(HarnessError("reference wallet could not derive the account".into()));
+            return Err(HarnessError(
+                "reference wallet could not derive the account".into(),
+            ));
         };
 
         let mut base_out: Option<Outcome> = None;
@@ -291,12 +369,21 @@ impl AcctCase {
             let (c, e, _) = iogen::configured(&v.wplan);
             rep.fault("stdout_short_write", c, fw.short);
             rep.fault("stdout_eintr", e, fw.eintr);
-            rep.fault("options_through_environment", (v.env_mask != 0) as u64, (v.env_mask != 0 && self.op.needs_account()) as u64);
+            rep.fault(
+                "options_through_environment",
+                (v.env_mask != 0) as u64,
+                (v.env_mask != 0 && self.op.needs_account()) as u64,
+            );
             rep.syscalls += f.calls + fw.calls;
-            if f.short + f.eintr + f.hard + fw.short + fw.eintr > 0 || (v.env_mask != 0 && self.op.needs_account()) {
+            if f.short + f.eintr + f.hard + fw.short + fw.eintr > 0
+                || (v.env_mask != 0 && self.op.needs_account())
+            {
                 rep.nontrivial = true;
             }
-            rep.probe("env_variant_run", v.env_mask != 0 && self.op.needs_account());
+            rep.probe(
+                "env_variant_run",
+                v.env_mask != 0 && self.op.needs_account(),
+            );
             rep.probe("input_through_pipe", v.pipe && self.op.has_input());
             rep.probe("stdin_plan_variant_run", v.stdin && !v.rplan.is_empty());
             hist.push(json!({
@@ -309,10 +396,23 @@ impl AcctCase {
 
             if matches!(o.status, Status::Exit(101) | Status::Signal(_)) {
                 let (loc, msg) = o.panic_site().unwrap_or_default();
-                rep.violate("C17", "panic", format!("{}|{}", panic_fingerprint(&loc, &msg), opname), format!("`{}`: {:?} {msg} at {loc}", cmd.argv.join(" "), o.status));
+                rep.violate(
+                    "C17",
+                    "panic",
+                    format!("{}|{}", panic_fingerprint(&loc, &msg), opname),
+                    format!("`{}`: {:?} {msg} at {loc}", cmd.argv.join(" "), o.status),
+                );
             }
             if o.status == Status::Timeout {
-                rep.violate("C17", "hang", format!("{opname}|timeout"), format!("`{}`: still running after the wall-clock limit", cmd.argv.join(" ")));
+                rep.violate(
+                    "C17",
+                    "hang",
+                    format!("{opname}|timeout"),
+                    format!(
+                        "`{}`: still running after the wall-clock limit",
+                        cmd.argv.join(" ")
+                    ),
+                );
             }
 
             if self.op == Op::Conflict {
@@ -344,7 +444,11 @@ impl AcctCase {
                 None => base_out = Some(o),
                 Some(b) => {
                     if b.status != o.status || b.stdout != o.stdout {
-                        let what = if v.env_mask != 0 && self.op.needs_account() { "environment-vs-flags" } else { "input-channel" };
+                        let what = if v.env_mask != 0 && self.op.needs_account() {
+                            "environment-vs-flags"
+                        } else {
+                            "input-channel"
+                        };
                         rep.violate(
                             "C16",
                             what,
@@ -398,7 +502,11 @@ impl AcctCase {
                     let d = parse_digest(digest).expect("generated digest");
                     self.check_sig(&mut rep, b, &line, one_line, &d, &acct.address, "sign raw");
                 }
-                Op::SignMessage | Op::SignTyped | Op::SignTx { signature_only: true } => {
+                Op::SignMessage
+                | Op::SignTyped
+                | Op::SignTx {
+                    signature_only: true,
+                } => {
                     let d = self.hash_digest(ctx, dir, &mut rep, &mut eh, &[])?;
                     match (d, b.status.ok()) {
                         (Some(d), true) => self.check_sig(&mut rep, b, &line, one_line, &d, &acct.address, opname),
@@ -410,7 +518,9 @@ impl AcctCase {
                         ),
                     }
                 }
-                Op::SignTx { signature_only: false } => {
+                Op::SignTx {
+                    signature_only: false,
+                } => {
                     let d = self.hash_digest(ctx, dir, &mut rep, &mut eh, &[])?;
                     match (d, b.status.ok()) {
                         (Some(d), true) => {
@@ -470,13 +580,18 @@ impl AcctCase {
                 Op::HashMessage => {
                     // the digest itself is C10's subject; here only that it is one well-formed line
                     if !b.status.ok() || !one_line || parse_digest(&line).is_none() {
-                        wrong(&mut rep, "hash-output-format", format!("`hash message`: status {:?}, stdout {:?}", b.status, out));
+                        wrong(
+                            &mut rep,
+                            "hash-output-format",
+                            format!("`hash message`: status {:?}, stdout {:?}", b.status, out),
+                        );
                     }
                 }
                 Op::HashTyped => {
                     // digest = keccak(0x1901 || domainSeparator || messageHash), with --message-hash printing
                     // the message struct hash alone; the separator is taken from the library
-                    let lib = serde_json::from_slice::<hdwallet::typeddata::TypedData>(&self.input).ok();
+                    let lib =
+                        serde_json::from_slice::<hdwallet::typeddata::TypedData>(&self.input).ok();
                     let m = self.hash_digest(ctx, dir, &mut rep, &mut eh, &["--message-hash"])?;
                     match (lib, b.status.ok(), m) {
                         (Some(td), true, Some(m)) => {
@@ -525,11 +640,22 @@ impl AcctCase {
     }
 
     #[allow(clippy::too_many_arguments)]
-    fn check_sig(&self, rep: &mut RunReport, b: &Outcome, line: &str, one_line: bool, digest: &[u8; 32], addr: &[u8; 20], opname: &str) {
+    fn check_sig(
+        &self,
+        rep: &mut RunReport,
+        b: &Outcome,
+        line: &str,
+        one_line: bool,
+        digest: &[u8; 32],
+        addr: &[u8; 20],
+        opname: &str,
+    ) {
         let ok = b.status.ok()
             && one_line
             && match parse_sig(line) {
-                Some((r, s, v)) if v == 27 || v == 28 => rm::recover(digest, &r, &s, v == 28) == Some(*addr),
+                Some((r, s, v)) if v == 27 || v == 28 => {
+                    rm::recover(digest, &r, &s, v == 28) == Some(*addr)
+                }
                 _ => false,
             };
         if !ok {
@@ -615,7 +741,9 @@ impl AcctCase {
             c.phrase = super::crashcase::GANACHE.into();
             push(c);
         }
-        if matches!(self.op, Op::HashData | Op::HashMessage | Op::SignMessage) && !self.input.is_empty() {
+        if matches!(self.op, Op::HashData | Op::HashMessage | Op::SignMessage)
+            && !self.input.is_empty()
+        {
             for keep in [0, self.input.len() / 2, self.input.len() - 1] {
                 let mut c = self.clone();
                 c.input.truncate(keep);
@@ -639,8 +767,12 @@ fn well_formed_typed_data(rng: &mut Rng) -> Vec<u8> {
             return doc.into_bytes();
         }
     }
-    let text: String = (0..rng.range(0, 30)).map(|_| *rng.pick(&['a', 'b', ' ', 'é', '!', '0'])).collect();
-    MAIL.replace("CHAIN", &rng.below(100_000).to_string()).replace("TEXT", &text).into_bytes()
+    let text: String = (0..rng.range(0, 30))
+        .map(|_| *rng.pick(&['a', 'b', ' ', 'é', '!', '0']))
+        .collect();
+    MAIL.replace("CHAIN", &rng.below(100_000).to_string())
+        .replace("TEXT", &text)
+        .into_bytes()
 }
 
 fn well_formed_transaction(rng: &mut Rng) -> Vec<u8> {
@@ -655,7 +787,11 @@ fn well_formed_transaction(rng: &mut Rng) -> Vec<u8> {
 
 pub fn gen_acct_case(rng: &mut Rng) -> AcctCase {
     let words = [12usize, 15, 18, 21, 24][rng.weighted(&[4, 1, 1, 1, 2])];
-    let phrase = if rng.chance(1, 6) { super::crashcase::GANACHE.to_string() } else { rm::bip39_encode(&rng.bytes(words * 4 / 3)).unwrap() };
+    let phrase = if rng.chance(1, 6) {
+        super::crashcase::GANACHE.to_string()
+    } else {
+        rm::bip39_encode(&rng.bytes(words * 4 / 3)).unwrap()
+    };
     let password = gen_password(rng);
     let (account_index, hd_path, path) = gen_selector(rng);
     let op = match rng.weighted(&[5, 3, 3, 3, 2, 3, 3, 2, 1, 2, 2]) {
@@ -663,9 +799,15 @@ pub fn gen_acct_case(rng: &mut Rng) -> AcctCase {
         1 => Op::Export,
         2 => Op::PublicKey,
         3 => Op::SignMessage,
-        4 => Op::SignRaw { digest: format!("0x{}", hex::encode(rng.bytes(32))) },
-        5 => Op::SignTx { signature_only: true },
-        6 => Op::SignTx { signature_only: false },
+        4 => Op::SignRaw {
+            digest: format!("0x{}", hex::encode(rng.bytes(32))),
+        },
+        5 => Op::SignTx {
+            signature_only: true,
+        },
+        6 => Op::SignTx {
+            signature_only: false,
+        },
         7 => Op::SignTyped,
         8 => Op::HashMessage,
         9 => Op::HashData,
@@ -686,42 +828,111 @@ pub fn gen_acct_case(rng: &mut Rng) -> AcctCase {
         Op::SignTyped | Op::HashTyped => well_formed_typed_data(rng),
         _ => Vec::new(),
     };
-    let mut variants = vec![Variant { env_mask: 0, stdin: false, rplan: vec![], wplan: vec![], pipe: false }];
+    let mut variants = vec![Variant {
+        env_mask: 0,
+        stdin: false,
+        rplan: vec![],
+        wplan: vec![],
+        pipe: false,
+    }];
     let n = input.len();
     if op == Op::Conflict {
         // every flag/env mix of the two selectors
         variants.clear();
         for m in 0..4u8 {
-            variants.push(Variant { env_mask: (m << 2) | (rng.below(4) as u8), stdin: false, rplan: vec![], wplan: vec![], pipe: false });
+            variants.push(Variant {
+                env_mask: (m << 2) | (rng.below(4) as u8),
+                stdin: false,
+                rplan: vec![],
+                wplan: vec![],
+                pipe: false,
+            });
         }
     } else {
         if op.needs_account() {
             // options through the environment: all, and one seeded mix
-            variants.push(Variant { env_mask: 7, stdin: false, rplan: vec![], wplan: benign_plan(rng, 140), pipe: false });
-            variants.push(Variant { env_mask: 1 + rng.below(6) as u8, stdin: rng.coin(), rplan: vec![], wplan: vec![], pipe: false });
+            variants.push(Variant {
+                env_mask: 7,
+                stdin: false,
+                rplan: vec![],
+                wplan: benign_plan(rng, 140),
+                pipe: false,
+            });
+            variants.push(Variant {
+                env_mask: 1 + rng.below(6) as u8,
+                stdin: rng.coin(),
+                rplan: vec![],
+                wplan: vec![],
+                pipe: false,
+            });
         }
         if op.has_input() {
-            variants.push(Variant { env_mask: 0, stdin: true, rplan: vec![], wplan: vec![], pipe: false });
-            variants.push(Variant { env_mask: if rng.coin() { 7 } else { 0 }, stdin: true, rplan: benign_plan(rng, n), wplan: benign_plan(rng, 140), pipe: false });
+            variants.push(Variant {
+                env_mask: 0,
+                stdin: true,
+                rplan: vec![],
+                wplan: vec![],
+                pipe: false,
+            });
+            variants.push(Variant {
+                env_mask: if rng.coin() { 7 } else { 0 },
+                stdin: true,
+                rplan: benign_plan(rng, n),
+                wplan: benign_plan(rng, 140),
+                pipe: false,
+            });
             if rng.coin() {
-                variants.push(Variant { env_mask: 0, stdin: false, rplan: benign_plan(rng, n), wplan: vec![], pipe: false });
+                variants.push(Variant {
+                    env_mask: 0,
+                    stdin: false,
+                    rplan: benign_plan(rng, n),
+                    wplan: vec![],
+                    pipe: false,
+                });
             }
             if rng.coin() {
                 // through a pipe: as "-" under a delivery plan, or as the non-regular file /dev/stdin
                 let stdin = rng.coin();
-                variants.push(Variant { env_mask: 0, stdin, rplan: if stdin { benign_plan(rng, n) } else { vec![] }, wplan: vec![], pipe: true });
+                variants.push(Variant {
+                    env_mask: 0,
+                    stdin,
+                    rplan: if stdin { benign_plan(rng, n) } else { vec![] },
+                    wplan: vec![],
+                    pipe: true,
+                });
             }
             if rng.chance(1, 3) {
                 let stdin = rng.coin();
                 let p = benign_plan(rng, n);
                 let calls = (p.len() + 2).min(8);
-                variants.push(Variant { env_mask: 0, stdin, rplan: with_hard_error(rng, p, calls), wplan: vec![], pipe: false });
+                variants.push(Variant {
+                    env_mask: 0,
+                    stdin,
+                    rplan: with_hard_error(rng, p, calls),
+                    wplan: vec![],
+                    pipe: false,
+                });
             }
         } else if rng.coin() {
-            variants.push(Variant { env_mask: rng.below(8) as u8, stdin: false, rplan: vec![], wplan: benign_plan(rng, 140), pipe: false });
+            variants.push(Variant {
+                env_mask: rng.below(8) as u8,
+                stdin: false,
+                rplan: vec![],
+                wplan: benign_plan(rng, 140),
+                pipe: false,
+            });
         }
     }
-    AcctCase { phrase, password, account_index, hd_path, path, op, input, variants }
+    AcctCase {
+        phrase,
+        password,
+        account_index,
+        hd_path,
+        path,
+        op,
+        input,
+        variants,
+    }
 }
 
 pub struct C16Plan {
@@ -748,23 +959,64 @@ impl Plan for C16Plan {
                 0 => (None, None, rm::default_path(0)),
                 1 => (Some("1".to_string()), None, rm::default_path(1)),
                 2 => (Some("2".to_string()), None, rm::default_path(2)),
-                3 => (Some("2147483647".to_string()), None, rm::default_path(0x7fff_ffff)),
+                3 => (
+                    Some("2147483647".to_string()),
+                    None,
+                    rm::default_path(0x7fff_ffff),
+                ),
                 4 => (None, Some("m/0".to_string()), vec![(0, false)]),
-                5 => (None, Some("m/44'/60'/1'/0/0".to_string()), vec![(44, true), (60, true), (1, true), (0, false), (0, false)]),
-                6 => (None, Some("m/2147483647'/2147483647".to_string()), vec![(0x7fff_ffff, true), (0x7fff_ffff, false)]),
-                _ => (None, Some("m/44'/60'/0'/0/0/0/0/0".to_string()), vec![(44, true), (60, true), (0, true), (0, false), (0, false), (0, false), (0, false), (0, false)]),
+                5 => (
+                    None,
+                    Some("m/44'/60'/1'/0/0".to_string()),
+                    vec![(44, true), (60, true), (1, true), (0, false), (0, false)],
+                ),
+                6 => (
+                    None,
+                    Some("m/2147483647'/2147483647".to_string()),
+                    vec![(0x7fff_ffff, true), (0x7fff_ffff, false)],
+                ),
+                _ => (
+                    None,
+                    Some("m/44'/60'/0'/0/0/0/0/0".to_string()),
+                    vec![
+                        (44, true),
+                        (60, true),
+                        (0, true),
+                        (0, false),
+                        (0, false),
+                        (0, false),
+                        (0, false),
+                        (0, false),
+                    ],
+                ),
             };
             let c = AcctCase {
                 phrase: super::crashcase::GANACHE.into(),
-                password: if k % 2 == 1 { Some("TREZOR".into()) } else { None },
+                password: if k % 2 == 1 {
+                    Some("TREZOR".into())
+                } else {
+                    None
+                },
                 account_index,
                 hd_path,
                 path,
                 op,
                 input: vec![],
                 variants: vec![
-                    Variant { env_mask: 0, stdin: false, rplan: vec![], wplan: vec![], pipe: false },
-                    Variant { env_mask: 7, stdin: false, rplan: vec![], wplan: vec![IoStep::Chunk(1), IoStep::Eintr, IoStep::Chunk(3)], pipe: false },
+                    Variant {
+                        env_mask: 0,
+                        stdin: false,
+                        rplan: vec![],
+                        wplan: vec![],
+                        pipe: false,
+                    },
+                    Variant {
+                        env_mask: 7,
+                        stdin: false,
+                        rplan: vec![],
+                        wplan: vec![IoStep::Chunk(1), IoStep::Eintr, IoStep::Chunk(3)],
+                        pipe: false,
+                    },
                 ],
             };
             return super::AnyCase::Acct(c);
@@ -800,6 +1052,13 @@ impl Plan for C16Plan {
         })
     }
     fn required_probes(&self) -> Vec<String> {
-        vec!["hard_error_fired".into(), "env_variant_run".into(), "stdin_plan_variant_run".into(), "nonzero_account_index".into(), "explicit_hd_path".into(), "nonascii_password".into()]
+        vec![
+            "hard_error_fired".into(),
+            "env_variant_run".into(),
+            "stdin_plan_variant_run".into(),
+            "nonzero_account_index".into(),
+            "explicit_hd_path".into(),
+            "nonascii_password".into(),
+        ]
     }
 }
